@@ -122,6 +122,9 @@ def _dict_to_obj(tpm_type, dict_obj: dict[str, any], command_code=None):
         return result_type
 
     kwargs = {k: _to_obj(get_attr_type(k), v) for k, v in dict_obj.items()}
+    if tpm_type.__name__.startswith("TPM2B") and list(dict_obj.values())[:1] == [0]:
+        # size 0: the structured payload is absent (the decoder emits an empty placeholder event for it)
+        kwargs = {k: (None if v == {} else kwargs[k]) for k, v in dict_obj.items()}
     obj = tpm_type(**kwargs)
     if tpm_type is Response:
         object.__setattr__(obj, "_command_code", command_code)
